@@ -53,6 +53,27 @@ fn compatible(l: &Loaded, limited: &Option<Solution<I>>, full: &Option<Solution<
     }
 }
 
+/// Does a trait of one of the goal's atoms lie on a cycle of the program's "impl of X requires Y" graph?
+fn goal_traits_in_cycle(prog: &crate::model::MProgram, g: &crate::model::MGoal) -> bool {
+    let mut ps = vec![];
+    crate::model::goal_preds(g, &mut ps);
+    let succ = |t: &str| -> Vec<String> { prog.impls.iter().filter(|im| im.head.tr == t).flat_map(|im| im.wheres.iter().map(|w| w.tr.clone())).collect() };
+    ps.iter().any(|p| {
+        // is p.tr reachable from one of its own successors?
+        let mut seen: std::collections::BTreeSet<String> = Default::default();
+        let mut todo = succ(&p.tr);
+        while let Some(t) = todo.pop() {
+            if t == p.tr {
+                return true;
+            }
+            if seen.insert(t.clone()) {
+                todo.extend(succ(&t));
+            }
+        }
+        false
+    })
+}
+
 pub fn run(ctx: &Ctx, out: &mut CaseOut) {
     let mut r = Rng::for_case(ctx.prop, ctx.seed, ctx.k);
     let w = workload(&mut r, ctx.k, 0, 5);
@@ -187,7 +208,10 @@ pub fn run(ctx: &Ctx, out: &mut CaseOut) {
                             match verdict {
                                 Some(Ok(())) => out.count(&format!("limited-compatible:{}:definite-guidance-true-in-model", solver_name(&choice))),
                                 Some(Err(m)) => {
-                                    out.violation(None, format!("{} interrupted ({}): limited solve claims definite guidance that the full answer does not give and that excludes a solution ({}): limited `{}` vs full `{}`", solver_name(&choice), sched_name, crate::case::truncate(&m, 160), disp(&lim), disp(full)), d());
+                                    // F35: the recursive solver's interrupted fixed-point iteration hands out guidance built
+                                    // from provisional results of a cycle through the goal's own trait
+                                    let cyc = solver_name(&choice) == "recursive" && w.goals[gi].2.as_ref().map_or(false, |g| goal_traits_in_cycle(&w.prog, g));
+                                    out.violation(if cyc { Some("recursive:interrupted-guidance-from-cyclic-provisional-result") } else { None }, format!("{} interrupted ({}): limited solve claims definite guidance that the full answer does not give and that excludes a solution ({}): limited `{}` vs full `{}`", solver_name(&choice), sched_name, crate::case::truncate(&m, 160), disp(&lim), disp(full)), d());
                                     continue;
                                 }
                                 None => out.count("limited-definite-vs-full-unknown(no structured goal; not judged)"),
